@@ -432,6 +432,19 @@ class ValidatorParser(ConfigFileParser):
                 warnings.warn(f"No such config option: {key!r}")
                 # Remove option
             else:
+                # A value that the action can't take would end in a traceback further down: configargparse 
+                # converts the value of a count option with int() and asserts that a flag is not given a list.
+                if isinstance(action, (argparse._CountAction, argparse._StoreConstAction, argparse._AppendConstAction)):
+                    if isinstance(value, list):
+                        raise ConfigFileParserException(
+                            f"Invalid value for config option {key!r}: a list is not accepted here")
+                    if isinstance(action, argparse._CountAction) and value.lower() not in (
+                            'true', 'yes', 'on', '1', 'false', 'no', 'off', '0'):
+                        try:
+                            int(value)
+                        except ValueError:
+                            raise ConfigFileParserException(
+                                f"Invalid value for config option {key!r}: {value!r} is not a number") from None
                 new_data[key] = value
         
         return new_data
